@@ -166,7 +166,7 @@ def _put(sv, i, v, symbolic):
     elif v: d[i] = v
 
 
-def make_material(w, kind, pkg, tagged, name='m', values=None):
+def make_material(w, kind, pkg, tagged, name='m', values=None, pattern=None):
     """
     Returns (material, read, keys, stream) with read() -> {(phase|None, ID): value in the material's own units,
     mol for streams} and the feed as the same kind of dict.  values: reuse the leaves of another material.
@@ -174,8 +174,12 @@ def make_material(w, kind, pkg, tagged, name='m', values=None):
     IDs = PKG[pkg]
     phases = PH if tagged else (None,)
     keys = [(ph, ID) for ph in phases for ID in IDs]
+    pattern = pattern or {}
     if values is None:
-        values = {k: w.real(f'{name}.{k[0] or "x"}.{k[1]}', lo=0.) for k in keys}
+        values = {}
+        for k in keys:
+            p = pattern.get(k, pattern.get('default', 'maybe'))
+            values[k] = 0. if p == 'zero' else w.real(f'{name}.{k[0] or "x"}.{k[1]}', lo=0., lo_strict=(p == 'pos'))
     feed = dict(values)
     if kind in ('sv', 'nd'):
         table = [[values[ph, ID] for ID in IDs] for ph in phases]
@@ -198,7 +202,9 @@ def make_material(w, kind, pkg, tagged, name='m', values=None):
         s = tmo.Stream(None, thermo=th, phase='l')
     for ph, sv in W.rows_of(s):
         for j, ID in enumerate(IDs):
-            _put(sv, j, values[(ph if tagged else None), ID], w.symbolic)
+            k = ((ph if tagged else None), ID)
+            if pattern.get(k, pattern.get('default', 'maybe')) == 'pos': sv.dct[j] = values[k]     # known present
+            else: _put(sv, j, values[k], w.symbolic)
 
     def read():
         out = {}
@@ -210,6 +216,30 @@ def make_material(w, kind, pkg, tagged, name='m', values=None):
     if kind == 'massview':
         return s.imass.data, read, feed, s
     return s, read, feed, s
+
+
+def sparse_pattern(cfgprog, pkg, tagged):
+    """Presence pattern that keeps the number of `if value:` forks small: reactants > 0, the other participating
+    entries >= 0 (undecided), one inert entry > 0, everything else empty."""
+    descs = []
+    def walk(p):
+        if p['kind'] == 'system':
+            for m in p['members']: walk(m)
+        else: descs.extend(p['rxns'])
+    walk(cfgprog)
+    pat = {'default': 'zero'}
+    for d in descs:
+        for ID, ph in d['nu']:
+            pat.setdefault((ph if tagged else None, ID), 'maybe')
+    for d in descs:
+        ph = dict(map(tuple, d['nu']))[d['reactant']]
+        pat[(ph if tagged else None, d['reactant'])] = 'pos'
+    for ph in (PH if tagged else (None,)):
+        for ID in PKG[pkg]:
+            if (ph, ID) not in pat:
+                pat[ph, ID] = 'pos'
+                return pat
+    return pat
 
 
 def row_total(c, state, mw=None):
@@ -367,8 +397,9 @@ def call_configs(tier):
                         if not full and (mat, pkg, basis) not in (('s', 'P3', 'mol'), ('s', 'Q3', 'wt')):
                             continue
                     unit = _n_rxns(prog) >= 2
-                    out.append({'name': f'{"tagged" if tagged else "plain"};{pname};{mat}:{pkg};{basis}' + (';unit' if unit else ''),
-                                'tagged': tagged, 'prog': prog, 'mat': mat, 'pkg': pkg, 'basis': basis, 'unit': unit})
+                    flows = 'sparse' if (tagged and mat == 's') or (_n_rxns(prog) >= 2 and mat in ('s', 'massview')) else 'all'
+                    out.append({'name': f'{"tagged" if tagged else "plain"};{pname};{mat}:{pkg};{basis};{flows}' + (';unit' if unit else ''),
+                                'tagged': tagged, 'prog': prog, 'mat': mat, 'pkg': pkg, 'basis': basis, 'unit': unit, 'flows': flows})
     return out
 
 
@@ -392,7 +423,8 @@ def call(w, cfg):
     mw = _mw(IDs)
     rows = weights(w, IDs)
     prog, obj = make_program(w, cfg['prog'], basis, rows, mw, chems, tagged, unit_reactant=cfg.get('unit', False))
-    mat, read, feed, stream = make_material(w, kind, pkg, tagged)
+    pattern = sparse_pattern(cfg['prog'], pkg, tagged) if cfg.get('flows') == 'sparse' else None
+    mat, read, feed, stream = make_material(w, kind, pkg, tagged, pattern=pattern)
     pre = snapshot_rxn(obj)
     # units of the data the reaction acts on: mass for a stream reacted by a wt-basis reaction and for mass views,
     # otherwise the material's own numbers (mol for streams; arrays are reacted "regardless of basis")
